@@ -7,6 +7,7 @@ def run(ctx):
     satlayer.rule_unwrap(ctx)
     satlayer.rule_verdict_tables(ctx)
     satlayer.rule_reply_parser(ctx)
+    satlayer.rule_reply_read_errors_abort(ctx)
     cli.rule_no_catch_unwind(ctx)
     cli.rule_single_exit(ctx)
     cli.rule_answer_after_solver(ctx)
